@@ -114,7 +114,7 @@ pub fn sr_view(p: &SenderReport, data: &[u8], pfx: &str) -> Rec {
     r.put("pkts", || j32(p.packet_count()));
     r.put("octets", || j32(p.octet_count()));
     r.put("n_reports", || json!(p.n_reports()));
-    blocks(&mut r, || Box::new(p.report_blocks()), data.len() + 2);
+    blocks(&mut r, || Box::new(p.report_blocks()), step_cap(data.len()));
     r
 }
 
@@ -125,7 +125,7 @@ pub fn rr_view(p: &ReceiverReport, data: &[u8], pfx: &str) -> Rec {
     r.sub("hdr", h);
     r.put("ssrc", || j32(p.ssrc()));
     r.put("n_reports", || json!(p.n_reports()));
-    blocks(&mut r, || Box::new(p.report_blocks()), data.len() + 2);
+    blocks(&mut r, || Box::new(p.report_blocks()), step_cap(data.len()));
     r
 }
 
@@ -136,7 +136,7 @@ pub fn bye_view(p: &Bye, data: &[u8], pfx: &str) -> Rec {
     r.sub("hdr", h);
     let mut hang = false;
     r.put("ssrcs", || {
-        let (items, hg) = drive(p.ssrcs(), data.len() + 2, j32);
+        let (items, hg) = drive(p.ssrcs(), step_cap(data.len()), j32);
         hang = hg;
         Value::Array(items)
     });
@@ -201,7 +201,7 @@ pub fn sdes_view(p: &Sdes, data: &[u8], pfx: &str) -> Rec {
     h.put("padding", || opt_pad(p.padding()));
     r.sub("hdr", h);
     let mut sub_panics = vec![];
-    let cap = data.len() + 2;
+    let cap = step_cap(data.len());
     r.put("chunks", || {
         let (chunks, hang) = drive(p.chunks(), cap, |ch| {
             let mut c = Rec::new(&format!("{pfx}chunks[]."));
@@ -325,7 +325,7 @@ pub fn pli_res(res: Result<Pli, RtcpParseError>) -> Value {
 
 macro_rules! fci_row {
     ($p:expr, $data:expr, $pfx:expr, $r:expr) => {{
-        let cap = $data.len() + 2;
+        let cap = step_cap($data.len());
         let mut f = Rec::new(&format!("{}fci.", $pfx));
         let mut pp = vec![];
         f.put("nack", || nack_res($p.parse_fci::<Nack>(), cap, &format!("{}fci.nack.", $pfx), &mut pp));
